@@ -268,7 +268,9 @@ def abandon_case(draw):
     base = draw(case_st())
     return dict(base, intervals=[1], retune=None, deferred_irun=False, log_prefix="",
                 loop_budget=draw(st.integers(2, 12)), break_after=draw(st.integers(0, 5)), then=draw(st.integers(0, 4)),
-                loop_entry=draw(st.sampled_from(["srun", "irun"])), then_entry=draw(st.sampled_from(["run", "irun"])), first=draw(st.integers(0, 3)))
+                loop_entry=draw(st.sampled_from(["srun", "irun"])), then_entry=draw(st.sampled_from(["run", "irun"])), first=draw(st.integers(0, 3)),
+                # instead of leaving the loop: attach one more observer from inside the loop body and run the loop to its end
+                attach_inside=draw(st.booleans()), attach_interval=draw(st.sampled_from([1, 2, 3])))
 
 
 def run_abandon(case):
@@ -285,12 +287,27 @@ def run_abandon(case):
             mc, atoms, log, traj, recs = build(case)
             execute(mc, "run", case["first"])
             gen = getattr(mc, case["loop_entry"])(case["loop_budget"])
+            late = None
             for i, step in enumerate(gen):
                 if case["loop_entry"] == "irun" and step is not None and hasattr(step, "__iter__") and not isinstance(step, np.ndarray):
                     for _ in step:
                         pass
+                if case.get("attach_inside"):
+                    if i == case["break_after"] and late is None:
+                        late = type(recs[0])(int(case["attach_interval"]))
+                        attached_at = mc.step_count
+                        mc.file_manager.attach_observer("late", late)
+                    continue
                 if i >= case["break_after"]:
                     break
+            if case.get("attach_inside"):
+                labels.append("observer-attached-inside-the-loop")
+                end = mc.step_count
+                if late is not None:
+                    want = [s for s in range(attached_at + 1, end + 1) if s % late.interval == 0]
+                    if late.calls != want:
+                        out["violation"] = {"kind": "abandon:late-observer", "detail": f"{case['driver']}: observer (interval {late.interval}) attached inside a {case['loop_entry']}({case['loop_budget']}) loop at step {attached_at}: called at {late.calls}, expected {want} (loop ended at step {end})"}
+                return out
             del gen
             c0 = mc.step_count
             calls0 = len(recs[0].calls)
